@@ -249,7 +249,7 @@ func checkC16(r *Run) {
 						continue
 					}
 					// base = value received from the select (extract of Select)
-					if ex, ok := c.Resolve(base).(*ssa.Extract); !ok || func() bool { _, isSel := ex.Tuple.(*ssa.Select); return !isSel }() {
+					if ex, ok := c.ResolveAt(base, iff).(*ssa.Extract); !ok || func() bool { _, isSel := ex.Tuple.(*ssa.Select); return !isSel }() {
 						continue
 					}
 					edge := -1
